@@ -223,6 +223,15 @@ pub fn seed_keys(name: &str) -> Vec<Key> {
             v.sort();
             v
         }
+        // 8000 pseudo-random keys: a batch over all of them on a cold store keeps hundreds of page
+        // and leaf fetches of one merkle worker in flight at once
+        "big8k" => {
+            let mut l = util::Lcg(0xB16B00);
+            let mut v: Vec<Key> = (0..8000).map(|_| l.key()).collect();
+            v.sort();
+            v.dedup();
+            v
+        }
         // ≈ 600 keys sharing 30 bytes: hundreds of leaves under one or two bottom branch nodes
         "branch" => (0..600u32)
             .map(|i| {
@@ -327,6 +336,8 @@ fn seed_value(name: &str, idx: usize) -> Vec<u8> {
         "leaf" | "branch" | "wide" => util::value(1000 + idx as u64, 1300),
         "emptyrun" => util::value(3000 + idx as u64, if idx == 0 || idx == 6 { 1300 } else { 0 }),
         "bulk" => util::value(5000 + idx as u64, 1 + idx % 40),
+        // (1000-byte values: three keys per leaf, ≈ 2700 distinct leaves to fetch)
+        "big8k" => util::value(6000 + idx as u64, 1000),
         "ovf" => util::value(77, 5 * 1024 * 1024),
         "pfx" => util::value(4000 + idx as u64, 1000),
         "ovf2" => util::value(300 + idx as u64, [70000usize, 70000, 61381, 5, 1300][idx]),
